@@ -411,6 +411,7 @@ func checkC20(c *km.Ctx) {
 	// ---------- R-C20-4
 	checkHistory(c, s)
 	checkHistoryFileReplace(c)
+	checkSaveScheduled(c)
 }
 
 func fnReachable(fn *ssa.Function, b *ssa.BasicBlock) bool {
@@ -611,5 +612,94 @@ func checkHistoryFileReplace(c *km.Ctx) {
 	}
 	if n == 0 {
 		r.AnchorLost("R-C20-4", "renaming writer in the event recorder's save path")
+	}
+}
+
+// checkSaveScheduled: in the recorder's event loop every recorded event schedules a save of the history: on
+// every trip round the loop that records an event (a record...Event call) the short save timer is re-armed,
+// directly or through a local closure that does it. An event kind that is recorded without scheduling a save
+// is lost if it is the last thing that happens before a restart.
+func checkSaveScheduled(c *km.Ctx) {
+	r := c.R
+	loop := c.MustFunc("R-C20-4", "eventmon/eventrecorder", "(*EventRecorder).eventLoop")
+	if loop == nil {
+		return
+	}
+	isShortReset := func(in ssa.Instruction) bool {
+		ci, ok := in.(ssa.CallInstruction)
+		if !ok || km.CalleeFull(ci.Common()) != "(*time.Timer).Reset" {
+			return false
+		}
+		d, isC := km.ConstInt(ci.Common().Args[1])
+		return isC && d > 0 && d < 3600*1e9
+	}
+	rearming := map[*ssa.Function]bool{}
+	for _, a := range loop.AnonFuncs {
+		km.Instrs(a, func(in ssa.Instruction) {
+			if isShortReset(in) {
+				rearming[a] = true
+			}
+		})
+	}
+	schedules := func(in ssa.Instruction) bool {
+		if isShortReset(in) {
+			return true
+		}
+		if ci, ok := in.(ssa.CallInstruction); ok {
+			if mc, ok := km.Unwrap(ci.Common().Value).(*ssa.MakeClosure); ok {
+				if f, ok := mc.Fn.(*ssa.Function); ok && rearming[f] {
+					return true
+				}
+			}
+			if f := km.StaticCallee(ci.Common()); f != nil && rearming[f] {
+				return true
+			}
+		}
+		return false
+	}
+	sBlocks := map[*ssa.BasicBlock]bool{}
+	var records []ssa.CallInstruction
+	km.Instrs(loop, func(in ssa.Instruction) {
+		if schedules(in) {
+			sBlocks[in.Block()] = true
+		}
+		if ci, ok := in.(ssa.CallInstruction); ok {
+			if f := km.StaticCallee(ci.Common()); f != nil && strings.HasPrefix(f.Name(), "record") && strings.HasSuffix(f.Name(), "Event") {
+				records = append(records, ci)
+			}
+		}
+	})
+	if len(records) == 0 || len(sBlocks) == 0 {
+		r.AnchorLost("R-C20-4", sprintf("record...Event calls (%d) / save re-arming (%d blocks) in eventLoop", len(records), len(sBlocks)))
+		return
+	}
+	// the loop header: the block every record call's block can reach and that dominates it, with a back edge
+	avoid := func(from *ssa.BasicBlock) map[*ssa.BasicBlock]bool {
+		seen := map[*ssa.BasicBlock]bool{}
+		var walk func(b *ssa.BasicBlock)
+		walk = func(b *ssa.BasicBlock) {
+			if seen[b] || sBlocks[b] {
+				return
+			}
+			seen[b] = true
+			for _, sc := range b.Succs {
+				walk(sc)
+			}
+		}
+		walk(from)
+		return seen
+	}
+	for _, rc := range records {
+		b := rc.Block()
+		ok := true
+		if !sBlocks[b] {
+			// can the block be reached from itself (one full trip round the loop) without passing a re-arming block?
+			for _, sc := range b.Succs {
+				if avoid(sc)[b] {
+					ok = false
+				}
+			}
+		}
+		r.Add("R-C20-4", km.FuncName(loop), "recorded event schedules a save", posOf(c, rc), "every trip round the event loop that records this event re-arms the save timer", sprintf("%v", ok), ok)
 	}
 }
